@@ -183,3 +183,14 @@ for _p, _c in (('isaac', 'IsaacCore'), ('isaac64', 'Isaac64Core')):
         H(_p + '_try_from_rng', 'C09', crate='rand_isaac', note=_c + '::try_from_rng: same on success; the source error and no generator on failure', timeout=2400),
         H(_p + '_core_debug_is_constant', 'C17', crate='rand_isaac', note='{:?} / {:#?} of an arbitrary core == "%s {}"' % _c),
     ], module=_p + '::rngs_verif_harness')
+register('seeding', [
+    H('xorshift_seed_from_u64_is_pcg32', 'C09', note='XorShiftRng::seed_from_u64(x) == from_seed(PCG32 expansion of x) for every x'),
+])
+register('serde_rt', [H('serde_' + n, 'C11', tier=('quick' if n in ('splitmix64', 'xoroshiro128plus', 'xoshiro128plusplus', 'xoshiro256plusplus', 'xoshiro512starstar', 'xorshift') else 'thorough'),
+                        note='bincode round trip of %s::from_seed(any): restored == original, original untouched' % n, timeout=1500)
+                      for n in ('splitmix64', 'xoroshiro64star', 'xoroshiro64starstar', 'xoroshiro128plus', 'xoroshiro128plusplus', 'xoroshiro128starstar',
+                                'xoshiro128plus', 'xoshiro128plusplus', 'xoshiro128starstar', 'xoshiro256plus', 'xoshiro256plusplus', 'xoshiro256starstar',
+                                'xoshiro512plus', 'xoshiro512plusplus', 'xoshiro512starstar', 'xorshift')])
+register('debug', [
+    H('xorshift_debug_is_constant', 'C17', note='{:?} / {:#?} of XorShiftRng::from_seed(any) == "XorShiftRng {}"'),
+])
